@@ -11,11 +11,16 @@ S2C: every path of length <= L through the TLC state graph replayed on a real st
      close-callback count and "callback after the futures" compared after every step.
 C2S: seeded random programs with a random close cause at a random point, validated by TLC.
 
+Cancel: specs/net/StreamCancel.tla - the application cancels read / write / connect futures it was handed
+     and the stream closes afterwards (close, close(exc), EOF, reset): every path of the model replayed on a
+     real stream; the close must leave cancelled futures alone, fail the others once, run the callback once
+     after them and raise nothing.
+
 Binding demonstrated during development (notes/net.md): `_signal_closed` skipping the connect
 future, StreamClosedError without real_error, close callback scheduled before the futures are
 failed, close() not completing a pending read_until_close - all reported as VIOLATION.
 """
-from harness import net_common, net_driver as nd
+from harness import net_common, net_cancel, net_driver as nd
 
 
 def run(ctx):
@@ -26,6 +31,12 @@ def run(ctx):
     net_common.s2c_stream(ctx, "GenG_IOStreamClose.cfg",
                           ctx.pick({"L": L}, {"L": L, "MaxChunk": 2, "Ccs": "{0, 1}"}), variants,
                           nontrivial=lambda e, p: len(p) >= 2 and any(s["exp"]["st"] == "closed" for s in p))
+    # extension: futures cancelled by the application before the stream closes (specs/net/StreamCancel.tla)
+    ctx.mc("net", "StreamCancel", "MC_StreamCancel.cfg",
+           required_actions=["Read", "Write", "ConnOk", "CancelRd", "CancelWr", "CancelCo", "Close"], timeout=300)
+    cp = ctx.gen_paths("net", "Gen_StreamCancel", "Gen_StreamCancel.cfg", overrides=ctx.pick({}, {"L": 8}))
+    ctx.replay(cp, net_cancel.replay_cancel, label="s2c-stream-cancel",
+               nontrivial=lambda e, p: p[-1]["exp"]["st"] == "closed" and any(s["act"].startswith("cancel") for s in p))
     ctx.cov["exhaustive"] = True
     net_common.c2s_stream(ctx, "close", n=ctx.pick(80, 800))
     ctx.cov["rule"] = ("paths: every sequence of read/deliver/write/grant/connect-ok/connect-refused/close/close(exc)/"
